@@ -7,20 +7,54 @@ from vlib.xhair import Ob
 M = 'vlib.harness.C14_ids'
 
 
+M2 = 'vlib.harness.C14_describe'
+
+
+def _describe_obligations(tier):
+    from vlib import shims
+    shims.install()
+    from vlib.harness import Q_family as F
+    quick = tier == 'quick'
+    T2 = float(os.environ.get('VERIF_XH_TIMEOUT') or (400 if quick else 1800))
+    na, nw, nbin = F.NATOM, F.NWRAP, F.NBIN
+    obs = [Ob(id='describe.form0', module=M2, func='descriptor_faithful', params='a: int, wa: int, proto: int',
+              args='0, a, wa, 0, 0, proto', pre=[f'0 <= a < {na} and 0 <= wa < {nw} and 0 <= proto < 3'], timeout=T2, group='describe / parse',
+              bound=f'W(atom): {na} x {nw} queries x protocol versions 1.0, 2.0, 3.0')]
+    for lo in range(0, na, 8 if quick else 4):
+        hi = min(na, lo + (8 if quick else 4))
+        obs.append(Ob(id=f'describe.form1.a{lo}', module=M2, func='descriptor_faithful', params='a: int, wa: int, wb: int, proto: int',
+                      args='1, a, wa, 0, wb, proto', pre=[f'{lo} <= a < {hi} and 0 <= wa < {nw} and 0 <= wb < {nw}',
+                                                           'proto == 2' if quick else '0 <= proto < 3'], timeout=T2, group='describe / parse',
+                      bound=f'W2(W1(atom)): atoms [{lo},{hi}) x {nw} x {nw}; protocol ' + ('3.0' if quick else '1.0, 2.0, 3.0')))
+    for lo in range(0, na, 8):
+        hi = min(na, lo + 8)
+        obs.append(Ob(id=f'describe.form2.a{lo}', module=M2, func='descriptor_faithful', params='a: int, b: int, wb: int, proto: int',
+                      args='2, a, 0, b, wb, proto', pre=[f'{lo} <= a < {hi} and 0 <= b < {na} and 0 <= wb < {nbin}',
+                                                          'proto == 2' if quick else '0 <= proto < 3'], timeout=T2, group='describe / parse',
+                      bound=f'BIN(atom a, atom b): a in [{lo},{hi}) x {na} x {nbin}'))
+    obs.append(Ob(id='describe.F20', module=M2, func='tuple_name_stable', params='which: int', pre=['0 <= which < 2'], timeout=T2,
+                  group='F20', finding='F20', bound='a tuple with an element reached through a FOR iterator / a WITH binding vs the plain tuple'))
+    obs.append(Ob(id='twin.describe', module=M2, func='twin_shape', params='a: int', post='not _', expect='cex',
+                  pre=['0 <= a < 3'], timeout=120, group='twin'))
+    return obs
+
+
 def obligations(tier):
     quick = tier == 'quick'
     T = float(os.environ.get('VERIF_XH_TIMEOUT') or (240 if quick else 1500))
     L = 2 if quick else 3
+    L2 = 2        # the 2-vs-2 shape family stays at |s| <= 2 (144 partitions at |s| <= 3 do not fit a tier)
     ln = lambda *v: ' and '.join(f'len({x}) <= {L}' for x in v)   # noqa: E731
     p22 = 'a1: str, a2: str, b1: str, b2: str, ta: int, tb: int, ca: int, cb: int, la: bool, lb: bool, ia: bool, ib: bool'
-    r22 = ['0 <= ta <= 1 and 0 <= tb <= 1 and 0 <= ca <= 3 and 0 <= cb <= 3', ln('a1', 'a2', 'b1', 'b2')]
+    r22 = ['0 <= ta <= 1 and 0 <= tb <= 1 and 0 <= ca <= 3 and 0 <= cb <= 3',
+           ' and '.join(f'len({x}) <= {L2}' for x in ('a1', 'a2', 'b1', 'b2'))]
     obs = [
     ] + [
         Ob(id=f'shape_2v2.a{la}{lb}.b{lc}{ld}', module=M, func='shape_2v2_nocolon', params=p22,
            pre=r22 + [f'len(a1) == {la} and len(a2) == {lb} and len(b1) == {lc} and len(b2) == {ld}'], timeout=T, group='shape',
            bound=f'two 2-element shapes, first shape names of length {la},{lb}, second shape names of length {lc},{ld}, '
                  f'|s| <= {L}, all of Unicode (without ":"), 2 subtype ids, 4 cardinalities, link and implicit-id flags')
-        for la in range(1, L + 1) for lb in range(1, L + 1) for lc in range(0, L + 1) for ld in range(0, L + 1)
+        for la in range(1, L2 + 1) for lb in range(1, L2 + 1) for lc in range(0, L2 + 1) for ld in range(0, L2 + 1)
     ] + [
         Ob(id='shape_1v2', module=M, func='shape_1v2_nocolon', params='a1: str, b1: str, b2: str', pre=[ln('a1', 'b1', 'b2')],
            timeout=T, group='shape', bound=f'1- vs 2-element shape, names |s| <= {L} (without ":")'),
@@ -37,6 +71,7 @@ def obligations(tier):
         Ob(id='tuple_2v2.F5', module=M, func='tuple_2v2', params='a1: str, a2: str, b1: str, b2: str, ta: int, tb: int',
            pre=['0 <= ta <= 1 and 0 <= tb <= 1', ln('a1', 'a2', 'b1', 'b2'), 'has_colon(a1, a2, b1, b2)'], timeout=T,
            group='F5', finding='F5', bound='names containing ":"'),
+    ] + _describe_obligations(tier) + [
         Ob(id='twin.shape', module=M, func='shape_2v2_nocolon', params=p22, post='not _', expect='cex',
            pre=r22 + ['len(a1) == 1 and len(b1) == 1 and len(a2) == 1 and len(b2) == 1 and a1 != b1'], timeout=60, group='twin'),
     ]
@@ -54,12 +89,18 @@ def run(tier, only=''):
         explanation=('Bounded symbolic verification (CrossHair/z3 string theory) that the key strings hashed into descriptor '
                      'ids are injective: for two symbolic descriptions (element names, sub-type ids, cardinalities, link / '
                      'link-property / implicit-id flags) equal keys imply equal descriptions, within each id function and '
-                     'across them.'),
+                     'across them. Second part (group "describe / parse"): every accepted query of a compositional family '
+                     '(hand-built qlast) goes through the REAL server query path (_compile_ql_query: EdgeQL compiler, SQL compiler, '
+                     'sertypes.describe / describe_params); the output and input descriptors are parsed back with sertypes.parse '
+                     'under protocol versions 1.0 / 2.0 / 3.0 and must state exactly the element names in order, cardinalities, '
+                     'element types and tuple structure of the result shape (taken from the IR the compiler produced) and the '
+                     'names / types / required-ness of the parameters; the last descriptor is the reported type id; within an '
+                     'obligation equal descriptor ids must come with byte-identical descriptors.'),
         bounds={'elements': '1-2 per shape / tuple', 'names': '|s| <= %d, all of Unicode' % (2 if tier == 'quick' else 3)},
         stubs=['sertypes.uuidgen.uuid5 replaced by the identity on its name argument (SHA-1 assumed collision-free, '
                'namespace constant)'],
         trusted_base=['CrossHair str model, z3 sequence theory'],
         assumptions=['element names: non-empty, no NUL, no "::" (what the lexer can express as a name)'],
-        outside=['faithfulness of describe()/describe_params to the compiled shape, parse() round trip, protocol versions '
-                 '(need compiled queries and the std schema)', 'more than 2 elements', 'element source types'],
+        outside=['arrays, ranges, enums, named tuples, link properties (not in the query family)', 'more than 2 elements in the '
+                 'id-injectivity part', 'element source types'],
     )
